@@ -78,6 +78,11 @@ func c06Scenarios(c *vlib.Ctx) []c06Scenario {
 	// a call started at before_CONFIGURE and awaited at a later weight of the same moment, with the
 	// critical hook failing in between: the call is pending when the creation is abandoned
 	out = append(out, c06Scenario{Kind: "create-fail", Stage: "hook-failure", Hooks: "pending-call-same-moment", NTasks: 2, Kill: "killed"})
+	// a critical DESTROY hook fails: whatever the destroy answers, OK means the environment is gone
+	for _, st := range []string{"CONFIGURED", "RUNNING", "ERROR"} {
+		out = append(out, c06Scenario{Kind: "destroy", State: st, Force: true, Kill: "killed", Hooks: "destroy-hook-fails", NTasks: 2})
+	}
+	out = append(out, c06Scenario{Kind: "destroy", State: "CONFIGURED", Force: false, Kill: "killed", Hooks: "destroy-hook-fails", NTasks: 2})
 	// the master refuses the first KILL call only: every other task must still be asked to terminate
 	out = append(out, c06Scenario{Kind: "destroy", State: "CONFIGURED", Kill: "refused-first", Hooks: "none", NTasks: 3})
 	out = append(out, c06Scenario{Kind: "destroy", State: "RUNNING", Force: true, Kill: "refused-first", Hooks: "none", NTasks: 4})
@@ -157,6 +162,8 @@ func c06Run(c *vlib.Ctx, idx int, sc c06Scenario) {
 	case "pending-call":
 		// started at before_CONFIGURE, awaited at a point that is never reached
 		wf.Calls = append(wf.Calls, coresim.CallSpec{Name: "pc", Func: "verif.Slow()", Trigger: "before_CONFIGURE", Await: "after_STOP_ACTIVITY+50", Timeout: "3s", Critical: false, Vars: map[string]string{"verif_tag": "pending", "verif_sleep_ms": "20"}})
+	case "destroy-hook-fails":
+		wf.Calls = append(wf.Calls, coresim.CallSpec{Name: "dhf", Func: "verif.Fail()", Trigger: "DESTROY", Critical: true, Vars: map[string]string{"verif_tag": "destroy-hook-fails"}})
 	case "pending-call-same-moment":
 		wf.Calls = append(wf.Calls, coresim.CallSpec{Name: "pc", Func: "verif.Slow()", Trigger: "before_CONFIGURE", Await: "before_CONFIGURE+20", Timeout: "3s", Critical: false, Vars: map[string]string{"verif_tag": "pending", "verif_sleep_ms": "20"}})
 	}
@@ -378,7 +385,7 @@ func c06Run(c *vlib.Ctx, idx int, sc c06Scenario) {
 		}
 		if derr != nil {
 			c.Count("destroys_refused", 1)
-			if sc.Kill == "killed" {
+			if sc.Kill == "killed" && sc.Hooks != "destroy-hook-fails" {
 				// nothing prevents this destroy from being honoured
 				fail("DESTROY-ERROR", "DestroyEnvironment failed although release and kill were possible: "+grpcMsg(derr))
 			}
